@@ -104,6 +104,14 @@ def gen_case(rng, idx, sdir):
                     c["id"] = c["name"] = str(uuid.UUID(int=rng.getrandbits(128), version=4))
         return s
     targets = [tsec("T%d" % i, rng.choice([0, 1, 2])) for i in range(rng.choice([1, 2, 3]))]
+    padded = rng.random() < 0.12
+    if padded:
+        # legal names with a leading / trailing blank, next to a sibling that carries the trimmed name
+        t = rng.choice(targets)
+        trimmed = t["name"]
+        t["name"] = rng.choice([trimmed + " ", " " + trimmed])
+        if rng.random() < 0.6:
+            targets.append(tsec(trimmed, 1))
     zone_t = S("targets", "zone", [], targets)
     # both zones directly below the Document (canonical links are absolute) or below a shared ancestor
     # (the canonical link between them is relative)
@@ -121,7 +129,7 @@ def gen_case(rng, idx, sdir):
     links = []
     for i in range(nlinks):
         mode = rng.choice(["empty", "other-names", "other-names", "same-names"])
-        use_ext = ext is not None and rng.random() < 0.6
+        use_ext = ext is not None and rng.random() < (0.6 if not padded else 0.2)
         which = rng.randrange(len(exts)) if use_ext else 0
         if use_ext:
             ext = exts[which]
@@ -170,7 +178,12 @@ def gen_case(rng, idx, sdir):
     for nm in reversed(prefix):
         top = [S(nm, "zone", props(rng.choice([0, 1]), "wp"), top)]
     doc = {"k": "doc", "id": None, "author": "a", "version": None, "date": None, "repository": None, "sections": top}
-    return {"doc": enc(doc), "ext": [enc(e) for e in exts] if exts else None, "links": links, "i": idx}
+    return {"doc": enc(doc), "ext": [enc(e) for e in exts] if exts else None, "links": links, "i": idx, "padded": padded,
+            "resolve_via": rng.choice(["finalize", "finalize", "setter"])}
+
+
+class _SkipFileStage(Exception):
+    pass
 
 
 def section_at(doc, path):
@@ -228,11 +241,22 @@ def run_case(case, ctx, sdir):
                 if r != l["target"]:
                     raise AssertionError("generator/resolver disagree: %r %r" % (r, l))
         rec.case(core.h([enc(no_ids(docspec)), [enc(no_ids(e)) for e in exts]]), True)
-        # ---- finalize
+        # ---- finalize (or: the same resolution through the link / include setters of the attached Sections)
+        via = case.get("resolve_via", "finalize")
+        rec.count("resolved-via", via)
         try:
-            doc.finalize()
+            if via == "setter":
+                for l in links:
+                    Lobj = section_at(doc, l["linker"])
+                    if l["kind"] == "link":
+                        Lobj.link = Lobj.link
+                    else:
+                        Lobj.include = Lobj.include
+            else:
+                doc.finalize()
         except Exception as exc:
-            rec.violation("finalize/raised-%s" % type(exc).__name__, repr(exc), case)
+            rec.violation("%s/raised-%s" % ("finalize" if via == "finalize" else "resolve-by-setter", type(exc).__name__),
+                          repr(exc), case)
             return
         m1 = model.model_of(doc)
         term_docs = [terminology.terminologies.get(u) for u in urls]
@@ -347,10 +371,12 @@ def run_case(case, ctx, sdir):
                     rec.violation("restore/include-text-changed", repr(L2["include"]), case)
             if Lobj.is_merged:
                 rec.violation("restore/still-merged-after-clean", repr(l["linker"]), case)
-        # ---- file saved after clean
+        # ---- file saved after clean (XML trims names: documents with blank-padded names skip the file stage)
         rec.monitor("file")
         fpath = os.path.join(sdir, "c12_%d.xml" % os.getpid())
         try:
+            if case.get("padded"):
+                raise _SkipFileStage()
             odml.save(doc, fpath)
             from lxml import etree
             root = etree.parse(fpath).getroot()
@@ -373,6 +399,8 @@ def run_case(case, ctx, sdir):
             d = model.diff(strip_model(strip_links(m1)), strip_model(strip_links(model.model_of(back))), ignore=("id",))
             if d and restorable:
                 rec.violation("file/reload+finalize-differs:%s" % d[0]["field"], repr(d[:2]), case)
+        except _SkipFileStage:
+            rec.count("file-stage", "skipped:padded-names")
         except Exception as exc:
             rec.violation("file/raised-%s" % type(exc).__name__, repr(exc), case)
         # ---- repeated cycles
